@@ -20,6 +20,7 @@ Judge(e, i) ==
         [] e.offset > e.upper -> Report(i, "MISMATCH", "reported position lies after the first character that cannot continue any notation")
         [] e.display_line # e.line -> Report(i, "MISMATCH", "Display names another line than the structured report")
         [] ~e.ctx_panicked /\ e.ctx_line # e.line -> Report(i, "MISMATCH", "contextualize marks another line than the structured report")
+        [] ~e.ctx_panicked /\ ~e.ctx_text_same -> Report(i, "MISMATCH", "contextualize marks a row that does not show the text of the reported line")
         [] e.is_file /\ e.src_file = "" -> Report(i, "MISMATCH", "source path is not reported for a file source")
         [] ~e.is_file /\ e.src_file # "" -> Report(i, "MISMATCH", "a source path is reported for a literal source")
         [] OTHER -> TRUE
